@@ -4,8 +4,8 @@
    3. feeding consecutive chunks with reset=False = one call (rot, vel, pos, Rij);
    4. rank normalisation;
    5. the propagated covariance is symmetric positive semidefinite, every F, every history;
-   6. the covariance of the faithful model is NOT chunking-invariant (wrong order of the reversed
-      cumulative product); with cumprod(..., left=False) it is the documented recursion. *)
+   6. history: with the order used before /repo 608b3d9 (cumprod default left=True) the covariance was
+      NOT chunking-invariant; with cumprod(..., left=False) (the source now) it is the documented recursion. *)
 From Coq Require Import QArith Reals Lra Psatz List Arith Lia.
 Import ListNotations.
 Close Scope Q_scope.
@@ -958,3 +958,15 @@ Proof.
   destruct (bcast (length items) st) as [stB|]; [|reflexivity].
   rewrite batch_frames by assumption. now rewrite opt_all_map_Some.
 Qed.
+
+(* ------------------------------------------------------------------ the source as it is now (code_left = false) *)
+Theorem cov_is_recursion (cs : list (cframe R)) (init_cov : matR) (cg ca : vec3R) : wf 9 9 init_cov ->
+  propagate_cov cs init_cov cg ca = Some (cov_rec (map cov_A cs) (map (cov_Q cg ca) cs) init_cov).
+Proof. exact (propagate_cov_fixed_is_recursion cs init_cov cg ca). Qed.
+Theorem cov_chunk_invariance (c : cfg R) (st : istate R) (chunks : list (list iframeR)) :
+  c_reset c = false -> c_prop c = true -> chunks <> [] -> Forall (fun fs => fs <> []) chunks -> Forall unit_frames chunks ->
+  unitq (s_rot st) -> wf 9 9 (s_cov st) ->
+  exists os st1 o st2,
+    run1_gen code_left c st chunks = Some (os, st1) /\ forward1 c st (concat chunks) = Some (o, st2) /\
+    s_cov st1 = s_cov st2 /\ o_cov o = Some (s_cov st1).
+Proof. exact (cov_chunk_invariance_fixed c st chunks). Qed.
